@@ -95,6 +95,14 @@ Section C10.
     rewrite (proj1 (C10_meaning c a b r_warm R Wa Wb) Hw e G).
     rewrite (proj1 (C10_meaning _ a b r_cold (reach_cold n) Wa Wb) Hc e G). reflexivity.
   Qed.
+  Theorem C10_history_independent_or c n a b r_warm r_cold : reach c -> wf a = true -> wf b = true ->
+    c_or c a b = Ret r_warm -> mor vmerge vcontains perm n a b = Ret r_cold ->
+    forall e, good e -> meval e r_warm = meval e r_cold.
+  Proof.
+    intros R Wa Wb Hw Hc e G.
+    rewrite (proj2 (C10_meaning c a b r_warm R Wa Wb) Hw e G).
+    rewrite (proj2 (C10_meaning _ a b r_cold (reach_cold n) Wa Wb) Hc e G). reflexivity.
+  Qed.
 End C10.
 
 (* non-vacuity: a family whose cnf answers a two-valued ==-group from the entry of the group spelled in the other order (the
@@ -110,5 +118,5 @@ Example C10_runs vmerge vcontains perm :
   reach vmerge vcontains perm (with_memo (level vmerge vcontains perm 12) (level vmerge vcontains perm 9) (level vmerge vcontains perm 9) swap_hit (fun _ => None)).
 Proof. apply reach_memo; try apply reach_cold; [exact swap_hit_ok | discriminate]. Qed.
 
-Definition C10_all := (C10_reach_sound, C10_meaning, C10_history_independent, step_sound, level_S).
+Definition C10_all := (C10_reach_sound, C10_meaning, C10_history_independent, C10_history_independent_or, step_sound, level_S).
 Redirect "C10.assumptions" Print Assumptions C10_all.
